@@ -161,7 +161,10 @@ CHECKS = {
         category="proof",
         text=("Lean: C16_others — for ANY set of nodes with invalid expressions, simultaneously, the masked results equal those of the AHB with 'Kann' in their place "
               "(so one run aborts iff the other does); C16_node_* (optional + reason as hint), C16_pool (invalid entries offered as Kann), C16_same_as_kann. "
-              "Predicate on the implementation: 1-5 planted invalid expressions at random node kinds vs the Kann-substituted AHB, node by node."),
+              "C16Full (end to end): evalPart_total / evalAhb_total — on the documented domain the modelled evaluator of AHB expressions raises the invalid-expression error iff a part "
+              "is structurally invalid and otherwise returns a result (composition of C06-C09); C16_full_invalid_iff — a node of the end-to-end validation model is reported as "
+              "'invalid expression' exactly then and never aborts for another reason. "
+              "Predicate on the implementation: 1-5 planted invalid expressions at random node kinds (and every / all but one / one entry of a pool) vs the Kann-substituted AHB, node by node."),
         design_ref="§5 C16",
         note=NOTE_COMMON + "Which expressions are invalid is C06's business; here the evaluation outcome 'invalid' is an input of the model.",
         technique="Lean 4 proof by mutual induction with a mask + Kann-substitution predicate",
